@@ -178,9 +178,19 @@ func runC17(c *ctxT) {
 		var got p2p.PeerID
 		copy(got[:], r.Bytes(32)) // a pre-existing value must not leak through
 		pobs := sx.Err()
-		if err := got.UnmarshalText(cand); err == nil {
-			pobs = sx.Ok(sx.B(got[:]))
-		}
+		before := got
+		func() {
+			defer func() {
+				if e := recover(); e != nil {
+					pobs = sx.L(sx.S("panic"))
+				}
+			}()
+			if err := got.UnmarshalText(cand); err == nil {
+				pobs = sx.Ok(sx.B(got[:]))
+			} else if got != before {
+				pobs = sx.L(sx.S("err-but-receiver-changed"))
+			}
+		}()
 		c.emit(sx.L(sx.S("idparse"), sx.B(cand)), pobs)
 		c.count("idparse/" + obsClass(pobs))
 		// the same text as the identity part of a nested address: id@inner
